@@ -2,7 +2,7 @@
 
 META = {
     'level': 'exploration',
-    'rule': ('Random DAGs (types incl. the per-name subset filter NF and the transforming, non-idempotent filter NT) x {serial, fork, spawn} x max_workers x two '
+    'rule': ('Random DAGs (types incl. an uncached limited type and the per-name subset filter NF and the transforming, non-idempotent filter NT) x {serial, fork, spawn} x max_workers x two '
              'Lab contexts holding unique canary strings. Each run() start event carries pid, ppid, native thread '
              'id, the value of a harness module global that the caller overwrites after import, and digest + key '
              'list of self.context. Oracle = per-backend process-model table (serial: caller pid+thread; fork: own '
